@@ -110,6 +110,46 @@ stage("mul_s_raw", extra=("num",))(
 stage("rsub_raw_s", extra=("num",))(
   (lambda P, i, p: S(P, i[0]).__rsub__(i[1]),
    lambda i, p: M.m_lockstep(i)))
+# every operator method the metaclass builds (plain and reflected, with a
+# constant and with a second simulator-owned source): a fast path for one
+# particular operator must stay lazy as well
+ANY_OPS = ["add", "sub", "mul", "truediv", "floordiv", "mod", "pow", "and_",
+           "or_", "xor", "lshift", "rshift", "lt", "le", "eq", "ne", "gt",
+           "ge"]
+ANY_UNOPS = ["neg", "pos", "invert", "abs"]
+
+
+def _binop_params(W):
+  op = W.pick("anyop", ANY_OPS)
+  refl = bool(W.choose("reflected", 2)) and op not in (
+    "pow", "lshift", "lt", "le", "eq", "ne", "gt", "ge")
+  return {"op": op, "refl": refl}
+
+
+def _binop(p, c=None):
+  f = getattr(operator, p["op"])
+  if c is None:
+    return (lambda a, b: f(b, a)) if p["refl"] else f
+  return (lambda v: f(c, v)) if p["refl"] else (lambda v: f(v, c))
+
+
+def _const_of(p):
+  return {"pow": 2, "lshift": 1, "rshift": 1}.get(p["op"], 1003)
+
+
+stage("anyop_const", params=_binop_params, weight=3)(
+  (lambda P, i, p: _binop(p, _const_of(p))(S(P, i[0])),
+   lambda i, p: M.m_each(i)))
+stage("anyop_streams", extra=("num",), params=_binop_params, weight=3)(
+  (lambda P, i, p: _binop(dict(p, refl=False))(S(P, i[0]), S(P, i[1])),
+   lambda i, p: M.m_lockstep(i)))
+stage("anyop_raw_operand", extra=("num",), params=_binop_params, weight=2)(
+  (lambda P, i, p: _binop(p)(S(P, i[0]), i[1]),
+   lambda i, p: M.m_lockstep(i)))
+stage("anyop_unary", params=lambda W: {"op": W.pick("unop", ANY_UNOPS)},
+      weight=2)(
+  (lambda P, i, p: getattr(operator, p["op"])(S(P, i[0])),
+   lambda i, p: M.m_each(i)))
 # fixed (non-source) operands are long: a stage that runs out because of them
 # is element-wise semantics (C01), and polling it again is Python's business
 stage("add_list", params=lambda W: {"n": 500 + W.choose("n", 6)})(
